@@ -85,11 +85,13 @@ def c04(res, st, std_coq):
     bad_trees = sum(1 for l in g if "Bad" in l)
     res.add_cases(len(cases), len(set(cases)), [g[0][:300], g[len(g) // 2][:300]] if g else [])
     res.extra["trees_with_bad_nodes"] = bad_trees
+    # C04_family_*_trees_are_well_typed are about Parse/StmtModel.v: tie it to the four entry points
+    stmt_family_correspondence(res, rnd, q)
     res.cov["rule"] = ("corpus files under every matching entry point, type expressions, seeded byte/token mutations (error recovery, Bad nodes), token soups, "
                        "';'-joined lists; for every node of every returned tree SQL() (panics included) is compared with the extracted printer "
                        "semantics run on the programs regenerated from sql.go, every tree is type-checked against the regenerated schema, and the "
                        "C04 oracle calls SQL/Pos/End on every node and Walk/Inspect/Preorder on every root; distinct = distinct (entry, input)")
-    res.assumptions += ["which trees the parser can return is not modelled outside the expression fragment: the parser side of C04 is the "
+    res.assumptions += ["which trees the parser can return is not modelled outside the expression fragment, the type grammar and the statement family: the parser side of C04 is the "
                         "correspondence/oracle run on dumped trees (sampling), the printer/position/traversal side is proved",
                         "unicode.IsPrint is a parameter of the printer semantics (table dumped from Go for the correspondence)"]
 
